@@ -91,10 +91,7 @@ def lookupIn : List String → List Value → String → Option Value
   | c :: cs, v :: vs, n => if c == n then some v else lookupIn cs vs n
   | _, _, _ => none
 
-def lastComponent (q : String) : String :=
-  match q.splitOn "." with
-  | [] => q
-  | parts => parts.getLast!
+def lastComponent (q : String) : String := lastDotted q
 
 def Scope.toRowValue (s : Scope) : Value := .row s.cols s.vals
 
